@@ -88,6 +88,8 @@ type Step struct {
 	Sub         string `json:"sub,omitempty"`
 	Items       *Expr  `json:"items,omitempty"`
 	Parallelism *Expr  `json:"parallelism,omitempty"`
+	// SrcOverride keeps the plugin source when the step is renamed.
+	SrcOverride string `json:"src_override,omitempty"`
 }
 
 // Deploy is the per-step deployment override.
@@ -399,7 +401,11 @@ func (p *Program) YAML() string {
 			}
 		} else {
 			b.WriteString("    plugin:\n")
-			b.WriteString("      src: " + strconv.Quote(p.Src(s.ID)) + "\n")
+			src := p.Src(s.ID)
+			if s.SrcOverride != "" {
+				src = s.SrcOverride
+			}
+			b.WriteString("      src: " + strconv.Quote(src) + "\n")
 			b.WriteString("      deployment_type: \"sim\"\n")
 			if s.NoSignal {
 				b.WriteString("    step: work_nosignal\n")
